@@ -581,6 +581,8 @@ class Interp:
                     v = TOP
             else:
                 v = a
+                if self.symbolic and isinstance(a, Sym) and ty in ('f64', 'f32') and 'IntToFloat' in str(rv.get('kind')):
+                    v = Sym(('cast', a))
                 if self.symbolic and 'Unsize' in str(rv.get('kind')) and rv['op'].get('k') in ('copy', 'move'):
                     # &[T; N] -> &[T] of a symbolic array: its N element symbols (the length is only in the source type)
                     import re as _re
@@ -1467,6 +1469,20 @@ def h_iter_chain(I, st, a, t, b):
     return {'#iter': 'seq', 'items': tuple(_items_of(I, st, a[0])) + tuple(_items_of(I, st, a[1])), 'pos': 0}
 
 
+def h_iter_take(I, st, a, t, b):
+    n = a[1]
+    if not isinstance(n, int):
+        raise Undecided('take(%r)' % (n,))
+    return {'#iter': 'seq', 'items': tuple(_items_of(I, st, a[0]))[:n], 'pos': 0}
+
+
+def h_iter_skip(I, st, a, t, b):
+    n = a[1]
+    if not isinstance(n, int):
+        raise Undecided('skip(%r)' % (n,))
+    return {'#iter': 'seq', 'items': tuple(_items_of(I, st, a[0]))[n:], 'pos': 0}
+
+
 def h_windows(I, st, a, t, b):
     s = _seq_of(I, st, a[0])
     n = a[1]
@@ -1645,5 +1661,6 @@ BUILTINS.update({
     'Vec::is_empty': h_is_empty, 'slice::is_empty': h_is_empty, 'slice::last': h_seq_last, 'slice::first': h_seq_first, 'slice::get': h_seq_get,
     'iter::once': h_iter_once, 'sources::once': h_iter_once, 'once::once': h_iter_once, 'Iterator::chain': h_iter_chain, 'slice::windows': h_windows, 'Option::unwrap': h_opt_unwrap,
     'IndexMut::index_mut': h_index_mut,
+    'Iterator::take': h_iter_take, 'Iterator::skip': h_iter_skip,
     'Index::index': h_vec_index, 'Vec::new': h_vec_new, 'Vec::with_capacity': h_vec_new, 'Vec::push': h_vec_push, 'slice::iter_mut': h_iter_mut, 'Vec::iter_mut': h_iter_mut, 'Iterator::filter': h_iter_filter, 'Iterator::filter_map': h_iter_filter_map, 'Extend::extend': h_extend, 'Vec::extend': h_extend,
 })
